@@ -17,7 +17,7 @@ props="$target"
 for f in $files; do
   case $f in
     dagrt/language.py) props="$props C01 C02 C04 C08 C11 C16";;
-    dagrt/exec_numpy.py) props="$props C01 C04 C11 C09";;
+    dagrt/exec_numpy.py) props="$props C01 C02 C04 C08 C09 C11";;
     dagrt/codegen/python.py) props="$props C01 C11 C13 C15";;
     dagrt/codegen/fortran.py) props="$props C03 C12 C13 C15";;
     dagrt/codegen/dag_ast.py) props="$props C05 C06 C03";;
